@@ -186,14 +186,27 @@ def run_helper_family(ctx, depth):
                               "exhaustive_part": "r in 0..%d x subsets of a small slot universe" % (4 if depth == "quick" else 6)}
 
 
+def controller_monitor(sn, faulty):
+    """the controller creates pods at desired ordinals and nowhere else (the vacancy clause is C04's)"""
+    from props import monitors
+    bad = []
+    if not sn.ok or not sn.domain_ok:
+        return bad
+    for c in sn.calls:
+        if c["verb"] == "create" and c["res"] == "pods":
+            parent, o = monitors.parse_name(c["name"])
+            if parent != sn.name or o not in sn.desired_set:
+                bad.append("the controller created pod %s, which is outside the desired set %s (replicas %s, slots %s)"
+                           % (c["name"], sn.desired, sn.set["replicas"], sorted(sn.slots)))
+    return bad
+
+
 def run(ctx, depth):
     run_helper_family(ctx, depth)
-    try:
-        from props import reconcile_common as rc
-    except ImportError:
-        rc = None
-    if rc is not None and hasattr(rc, "c01_controller_family"):
-        rc.c01_controller_family(ctx, depth)
+    from props import reconcile_common as rc
+    # the controller side of the property: every pod create of the real controller is at a desired ordinal,
+    # and the create calls agree with the model of the whole reconcile
+    rc.run_reconcile_property(ctx, depth, "C01", "pi_pod_create", controller_monitor, sizes=(220, 5000), fault_bases=(0, 100))
 
 
 def search(ctx):
